@@ -366,7 +366,8 @@ def _rule_concatenate_structural(ctx):
         for node in ast.walk(f.node):
             if isinstance(node, ast.Call):
                 for k in node.keywords:
-                    if k.arg == '_no_check' and f.qualname != 'dimarray.dataset.concatenate_ds':
+                    # (a function defined inside concatenate_ds is part of concatenate_ds)
+                    if k.arg == '_no_check' and f.qualname != 'dimarray.dataset.concatenate_ds' and not f.qualname.startswith('dimarray.dataset.concatenate_ds.<locals>.'):
                         ctx.violated('R1', f, node, 'only concatenate_ds (which aligns the datasets itself) may pass _no_check', node=node)
     cds = ctx.fn('dimarray.dataset.concatenate_ds')
     ev = run(ctx, cds, mode='join')
